@@ -88,7 +88,11 @@ def binop(it, op, a, b, node):
     opn = BINOPS.get(type(op))
     if opn is None:
         raise Unsupported("binary operator", node)
-    return arith(it, opn, a, b, node)
+    r = arith(it, opn, a, b, node)
+    if (getattr(a, "scalar_of_image", False) or getattr(b, "scalar_of_image", False)) and isinstance(r, (Val, Unk)) \
+            and all(is_pyconst(x) or getattr(x, "scalar_of_image", False) for x in (a, b)):
+        r.scalar_of_image = True  # arithmetic between numbers computed from images (and constants) is such a number
+    return r
 
 
 def arith(it, opn, a, b, node):
